@@ -9,6 +9,7 @@ use std::collections::{BTreeMap, BTreeSet, HashSet};
 use std::io::{BufRead, BufReader, Write};
 use std::path::{Path, PathBuf};
 use std::sync::Mutex;
+use rayon::prelude::*;
 
 pub type Tree = BTreeMap<String, u8>;
 
@@ -1153,6 +1154,12 @@ pub fn explore_collect(ctx: &Ctx, mode: &str, bounds: &[Bound], fault_full_trunc
 fn replay(ctx: &Ctx, mode: &str) -> ! {
     let rp = ctx.replay.clone().unwrap_or_default();
     let v: Value = serde_json::from_slice(&std::fs::read(&rp).unwrap_or_default()).unwrap_or(Value::Null);
+    if v["detail"]["large_file_size"].is_u64() {
+        let (runs, vs) = c06_large_files(true);
+        let mut rep = Report::new("model_checking");
+        rep.set("states", runs).set("transitions", runs).set("traces_validated_against_impl", runs).set("samples", json!([v["detail"]]));
+        finish(ctx, rep, vs);
+    }
     if v["detail"]["root_names"].is_array() {
         let (runs, vs) = c07_root_names();
         let mut rep = Report::new("model_checking");
@@ -1246,6 +1253,125 @@ fn c07_root_names() -> (u64, Vec<Violation>) {
     (runs, out)
 }
 
+/// C06 on contents that are not tiny: sizes around every buffer a streaming hasher might use. For each size:
+/// one-sided creation, a same-size edit of the LAST byte, an extension by bytes that a stale read buffer would
+/// still hold, and a divergent edit. Oracle: both sides byte-identical, the archive records the true BLAKE3 of
+/// every file, the winner of the divergent edit is the greater true BLAKE3 and the loser sits at the name built
+/// from its true hash, and an immediate second run plans nothing.
+fn c06_large_files(thorough: bool) -> (u64, Vec<Violation>) {
+    let mib = 1usize << 20;
+    let mut sizes = vec![65_537usize, mib - 1, mib, mib + 1, mib + 5000, 2 * mib, 2 * mib + 1, 3 * mib + 7];
+    if thorough {
+        sizes.extend([8192, 65_536, 262_144, 262_145, 4 * mib, 4 * mib + 4096 + 1, 8 * mib + 3]);
+    }
+    let res: Vec<(u64, Option<Violation>)> = sizes
+        .par_iter()
+        .map(|&sz| {
+            let sc = Scratch::new("c06big");
+            let (a, b, home) = (sc.path("a"), sc.path("b"), sc.path("home"));
+            for d in [&a, &b, &home] {
+                let _ = std::fs::create_dir_all(d);
+            }
+            let mut runs = 0u64;
+            let run = |runs: &mut u64| {
+                *runs += 1;
+                let mut c = std::process::Command::new(cli_bin());
+                c.arg("bisync").arg(&a).arg(&b).env("HOME", &home).env("HOSTNAME", HOST).env("RUST_LOG", "off");
+                let (code, _o, e) = output_with_timeout(&mut c, 60);
+                (code, String::from_utf8_lossy(&e).into_owned())
+            };
+            let x: Vec<u8> = Rng::new(sz as u64 ^ 0xC06).bytes(sz);
+            let fail = |step: &str, m: String| Some(Violation::new("large_file", format!("size {sz}, {step}: {m}"), json!({"large_file_size": sz, "step": step})).with("cause", json!("large_content")));
+            let recorded = |p: &str| -> Option<Vec<u8>> {
+                let pair = crate::archive::root_pair_hash(&a, &b);
+                let bytes = std::fs::read(home.join(".copia").join("archive").join(format!("{pair}.json"))).ok()?;
+                let v: Value = serde_json::from_slice(&bytes).ok()?;
+                v["entries"][p]["blake3"].as_array().map(|arr| arr.iter().filter_map(|q| q.as_u64().map(|n| n as u8)).collect())
+            };
+            let settled = |step: &str, want: &[(&str, &[u8])], runs: &mut u64| -> Option<Violation> {
+                for (p, bytes) in want {
+                    for (sn, root) in [("A", &a), ("B", &b)] {
+                        match std::fs::read(root.join(p)) {
+                            Ok(got) if got == *bytes => {}
+                            Ok(got) => return fail(step, format!("side {sn} holds {} bytes at {p} that are not the expected version ({} bytes)", got.len(), bytes.len())),
+                            Err(_) => return fail(step, format!("{p} missing on side {sn}")),
+                        }
+                    }
+                    if recorded(p).as_deref() != Some(blake3::hash(bytes).as_bytes().as_slice()) {
+                        return fail(step, format!("the recorded common state for {p} is not the BLAKE3 of its bytes"));
+                    }
+                }
+                let (c2, e2) = run(runs);
+                if c2 != Some(0) || plan_count(&e2) != Some(0) {
+                    return fail(step, format!("an immediate second run exits {c2:?} and plans {:?}", plan_count(&e2)));
+                }
+                None
+            };
+            // 1. created on A only
+            let _ = std::fs::write(a.join("big"), &x);
+            let (c, e) = run(&mut runs);
+            if c != Some(0) {
+                return (runs, fail("create", format!("exit {c:?}: {}", e.lines().last().unwrap_or(""))));
+            }
+            if let Some(v) = settled("create", &[("big", &x)], &mut runs) {
+                return (runs, Some(v));
+            }
+            // 2. same-size edit of the last byte on B
+            let mut y = x.clone();
+            let l = y.len();
+            y[l - 1] ^= 0x55;
+            let _ = std::fs::write(b.join("big"), &y);
+            let (c, e) = run(&mut runs);
+            if c != Some(0) {
+                return (runs, fail("edit-last-byte", format!("exit {c:?}: {}", e.lines().last().unwrap_or(""))));
+            }
+            if let Some(v) = settled("edit-last-byte", &[("big", &y)], &mut runs) {
+                return (runs, Some(v));
+            }
+            // 3. extension on A by the bytes a stale 1 MiB / 256 KiB / 64 KiB read buffer would still hold
+            for buf in [mib, 262_144, 65_536] {
+                let cur = std::fs::read(a.join("big")).unwrap_or_default();
+                let t = cur.len() % buf;
+                if t == 0 || cur.len() < buf {
+                    continue;
+                }
+                let prev = &cur[cur.len() - t - buf..cur.len() - t];
+                let mut z = cur.clone();
+                z.extend_from_slice(&prev[t..]);
+                let _ = std::fs::write(a.join("big"), &z);
+                let (c, e) = run(&mut runs);
+                if c != Some(0) {
+                    return (runs, fail("extend-with-stale-buffer-bytes", format!("exit {c:?}: {}", e.lines().last().unwrap_or(""))));
+                }
+                if let Some(v) = settled("extend-with-stale-buffer-bytes", &[("big", &z)], &mut runs) {
+                    return (runs, Some(v));
+                }
+            }
+            // 4. divergent edit: both sides rewrite the file (same size, different bytes)
+            let base = std::fs::read(a.join("big")).unwrap_or_default();
+            let (mut p1, mut p2) = (base.clone(), base.clone());
+            let l = base.len();
+            p1[l - 2] ^= 0x01;
+            p2[l - 3] ^= 0x02;
+            let _ = std::fs::write(a.join("big"), &p1);
+            let _ = std::fs::write(b.join("big"), &p2);
+            let (c, _e) = run(&mut runs);
+            if c != Some(1) && c != Some(0) {
+                return (runs, fail("divergent", format!("exit {c:?}")));
+            }
+            let (h1, h2) = (blake3::hash(&p1), blake3::hash(&p2));
+            let (win, lose, lh) = if h1.as_bytes() >= h2.as_bytes() { (&p1, &p2, h2) } else { (&p2, &p1, h1) };
+            let cname = format!("big.conflict-{HOST}-{}", &lh.to_hex()[..12]);
+            if let Some(v) = settled("divergent", &[("big", win), (cname.as_str(), lose)], &mut runs) {
+                return (runs, Some(v));
+            }
+            (runs, None)
+        })
+        .collect();
+    let runs = res.iter().map(|r| r.0).sum();
+    (runs, res.into_iter().filter_map(|r| r.1).take(3).collect())
+}
+
 pub fn run(ctx: &Ctx, mode: &str) -> ! {
     if ctx.replay.is_some() {
         replay(ctx, mode);
@@ -1262,6 +1388,11 @@ pub fn run(ctx: &Ctx, mode: &str) -> ! {
         (_, true) => vec![b(vec!["f"], 5, 2), b(vec!["f"], 3, 3), b(vec!["f", "d/g"], 3, 2), b(vec!["n.t", "n/t"], 3, 2), b(vec!["d", "d/g"], 3, 2)],
     };
     let (mut rep, mut v) = explore(ctx, mode, &bounds, 1);
+    if mode == "C06" {
+        let (runs, vs) = c06_large_files(t);
+        rep.set("large_file_runs", runs);
+        v.extend(vs);
+    }
     if mode == "C07" {
         let (runs, vs) = c07_root_names();
         rep.set("root_name_pair_runs", runs);
